@@ -40,6 +40,27 @@ def stmt_sig(rec, st):
     return {"template": st["k"], "operator": st["op"], "lhs": lhs}
 
 
+def root_cause(prog, n):
+    """Known unsound typing rules taint what is computed from their results: the result of a function whose body is a
+    guarded `if` (the guard narrows an Int to a Nat refinement), of `**` (typed Nat for an Int base) and of an element
+    of a Nat! list.  Returns the kind of the earliest such source statement n depends on (or is), else None."""
+    def operands(st):
+        k = st["k"]
+        if k in ("bin", "cmp", "scat", "smul", "fn", "lmk", "lcat", "opmeth", "lpushi", "lmap"): return [st["a"], st["b"]]
+        if k == "lpush": return [st["a"], st["b"], st["c"]]
+        if k in ("neg", "meth", "ann", "slen", "lget", "ifg"): return [st["a"]]
+        return []
+    src = {}
+    for i, st in enumerate(prog, 1):
+        own = "ifg" if st["k"] == "ifg" else "pow" if st["k"] in ("bin", "fn", "opmeth") and st["op"] == "**" else "lpush" if st["k"] == "lpush" else None
+        inherited = [src[j] for j in operands(st) if j in src]
+        if inherited:
+            src[i] = min(inherited)          # (index, kind) of the earliest source
+        elif own:
+            src[i] = (i, own)
+    return src[n][1] if n in src else None
+
+
 def evaluate(ctx, vh, recs, name, want):
     """want: 'C34' or 'C02' -- which verdicts to report"""
     srcs, hir, res = compile_run(vh, recs, name, typed_tree=(want == "C34"))
@@ -64,7 +85,8 @@ def evaluate(ctx, vh, recs, name, want):
             typeish = exc in TYPE_ERRORS or (exc == "ValueError" and "Nat can't be negative" in msg) or exc in ("InterpreterDied", "Timeout", "SystemError")
             if typeish:
                 st = prog[failed - 1] if failed else prog[-1]
-                ctx.violation({"kind": "accepted-program-type-error", "exception": exc, **stmt_sig(rec, st)},
+                root = root_cause(prog, failed) if (failed and exc == "ValueError") else None
+                ctx.violation({"kind": "accepted-program-type-error", "exception": exc, **({"root": root} if root else stmt_sig(rec, st))},
                               {"src": srcs[i], "exception": exc, "message": msg, "statement": failed},
                               f"accepted program fails with {exc}: {msg[:100]} at statement {failed} ({shape(st)})")
             continue
@@ -72,7 +94,8 @@ def evaluate(ctx, vh, recs, name, want):
         if exc == "ValueError" and "Nat can't be negative" in (run_.get("exc_msg") or "") and failed:
             # the runtime's Nat(..) wrapper, inserted where the inferred type is Nat, met a negative value
             st = prog[failed - 1]
-            ctx.violation({"kind": "value-outside-inferred-type", **stmt_sig(rec, st), "type": "Nat"},
+            root = root_cause(prog, failed)
+            ctx.violation({"kind": "value-outside-inferred-type", **({"root": root} if root else stmt_sig(rec, st)), "type": "Nat"},
                           {"src": srcs[i], "binding": f"v{failed}", "reported_type": types.get(f"v{failed}"), "message": run_.get("exc_msg")},
                           f"binding v{failed} ({shape(st)}) has inferred type {types.get(f'v{failed}')} but its value is negative: {run_.get('exc_msg')}")
         if exc == "IndexError" and failed and prog[failed - 1]["k"] == "lget":
@@ -102,8 +125,9 @@ def evaluate(ctx, vh, recs, name, want):
                 continue
             judged += 1
             if not ok:
-                ctx.violation({"kind": "value-outside-inferred-type", **stmt_sig(rec, st),
-                               "type": re.sub(r"-?\d+(\.\d+)?", "N", types[name_])[:60]},
+                root = root_cause(prog, n)
+                ctx.violation({"kind": "value-outside-inferred-type", **({"root": root, "type": "refinement-or-class"} if root else
+                                                                          {**stmt_sig(rec, st), "type": re.sub(r"-?\d+(\.\d+)?", "N", types[name_])[:60]})},
                               {"src": srcs[i], "binding": name_, "reported_type": types[name_], "runtime_value": rep, "runtime_class": cls},
                               f"binding {name_} ({shape(st)}) has inferred type {types[name_]} but holds {rep} ({cls}) at run time")
             # the specification's value for the binding (model conformance, counted only)
